@@ -440,6 +440,9 @@ func runC20(c *mon.Ctx) {
 				// the EAT profile claim (key 265, read by the dispatcher for every token) of a non-text type
 				{"uint-for-eat-profile", model.P2KProfile, refcbor.U(42)}, {"bstr-for-eat-profile", model.P2KProfile, refcbor.Bstr([]byte(model.P2Name))}, {"array-for-eat-profile", model.P2KProfile, refcbor.Arr(refcbor.Tstr(model.P2Name))},
 				{"map-for-eat-profile", model.P2KProfile, refcbor.MapOf()}, {"bool-for-eat-profile", model.P2KProfile, refcbor.Bool(true)}, {"float-for-eat-profile", model.P2KProfile, refcbor.Flt(2.0, 4)},
+				// a well-formed list whose FIRST (non-last) entry has a member of an undecodable type
+				{"component-list-with-mistyped-first-entry", compKey, refcbor.Arr(refcbor.MapOf(refcbor.U(2), refcbor.Bstr(g.Bytes(32)), refcbor.U(5), refcbor.Bstr(g.Bytes(32)), refcbor.U(4), refcbor.U(7)), refcbor.MapOf(refcbor.U(2), refcbor.Bstr(g.Bytes(32)), refcbor.U(5), refcbor.Bstr(g.Bytes(32))))},
+				{"component-list-with-mistyped-middle-entry", compKey, refcbor.Arr(refcbor.MapOf(refcbor.U(2), refcbor.Bstr(g.Bytes(32)), refcbor.U(5), refcbor.Bstr(g.Bytes(32))), refcbor.MapOf(refcbor.U(2), refcbor.Tstr("x"), refcbor.U(5), refcbor.Bstr(g.Bytes(32))), refcbor.MapOf(refcbor.U(2), refcbor.Bstr(g.Bytes(32)), refcbor.U(5), refcbor.Bstr(g.Bytes(32))))},
 				// entries of the component list that are no component at all
 				{"component-list-with-undefined-entry", compKey, refcbor.Arr(refcbor.MapOf(refcbor.U(2), refcbor.Bstr(g.Bytes(32)), refcbor.U(5), refcbor.Bstr(g.Bytes(32))), refcbor.Undef())},
 				{"component-list-of-undefined", compKey, refcbor.Arr(refcbor.Undef())}, {"component-list-with-null-entry", compKey, refcbor.Arr(refcbor.Null(), refcbor.MapOf(refcbor.U(2), refcbor.Bstr(g.Bytes(32)), refcbor.U(5), refcbor.Bstr(g.Bytes(32))))},
